@@ -25,6 +25,7 @@ for fam in ('CUR', 'PCovCUR'):
         UNITS.append((lambda c: (lambda: K.u_init(c)))(C(fam, d)))
         for re in (0, 1):
             UNITS.append((lambda c: (lambda: K.u_continue(c)))(C(fam, d, recompute=re)))
+EXTRA_MODULES = ['pcovutil']      # pcovr_covariance: what it computes (own numpy model)
 RT = True
 TRUSTED = ["matrix layer: 2-D arrays as terms of an uninterpreted sort with the ring laws of matrix algebra, column-of operator, zero-matrix laws, 1x1 matrices are their trace times Id(1)",
            "Moore-Penrose facts used for the Y orthogonalisers: A G^+ G = A, G G^+ A^T = A^T for G = A^T A; A^T A A^+ = A^T; np.linalg.lstsq(A, B)[0] = A^+ B",
